@@ -7,7 +7,7 @@ import ChalkModel.Lemmas.FixedPointSemB
 
 namespace Chalk.FixedPoint.Mix
 open Chalk.FixedPoint.Cyc (JE JA MinLe InCache InGraph Def Undef flagAt StackExt stackGoals
-  getElem?_lt_length getElem?_prefix shouldContinue_quiet)
+  getElem?_lt_length getElem?_prefix QuietSt shouldContinue_cases)
 
 /-- the class of instances: `dom` closed under `deps`, all goals ground, `P` the stratified truth,
     `lvl` a stratification (levels do not increase along dependencies and drop where the polarity
@@ -25,13 +25,13 @@ def GTop (s : St) (g : Nat) : Prop :=
     d + 1 = s.stack.length
 
 /-- partial-correctness specification of a sub-goal solver -/
-def SubSpec (inst : Instance) (P : Nat → Prop) (dom : List Nat) (lvl : Nat → Nat) (rec : SubSolver) : Prop :=
-  ∀ g m s v m' s', Inv inst P dom lvl s → g ∈ dom → Below inst lvl s g → rec g m s = .ok (v, m') s' →
-    Inv inst P dom lvl s' ∧ Step inst P s s' m' ∧ MinLe m' m ∧ Fact inst P s s' m' g v ∧
+def SubSpec (inst : Instance) (P : Nat → Prop) (dom : List Nat) (lvl : Nat → Nat) (fx : Bool) (rec : SubSolver) : Prop :=
+  ∀ g m s v m' s', Inv inst P dom lvl fx s → g ∈ dom → Below inst lvl s g → rec g m s = .ok (v, m') s' →
+    Inv inst P dom lvl fx s' ∧ Step inst P s s' m' ∧ MinLe m' m ∧ Fact inst P s s' m' g v ∧
     LinkOK lvl s' (lvl g) s.graph.length m m'
 
 section
-variable {inst : Instance} {P : Nat → Prop} {dom : List Nat} {lvl : Nat → Nat} {rec : SubSolver} {cfg : Cfg}
+variable {inst : Instance} {P : Nat → Prop} {dom : List Nat} {lvl : Nat → Nat} {fx : Bool} {rec : SubSolver} {cfg : Cfg}
 
 theorem GTop.step {s s' : St} {m : Min} {g : Nat} (h : GTop s g) (hs : Step inst P s s' m) : GTop s' g := by
   obtain ⟨i, n, d, hn, hg, hd, hl⟩ := h
@@ -39,7 +39,7 @@ theorem GTop.step {s s' : St} {m : Min} {g : Nat} (h : GTop s g) (hs : Step inst
   exact ⟨i, n, d, by rw [hgr]; exact getElem?_prefix hn, hg, hd, by rw [hs.stack.1]; exact hl⟩
 
 /-- a sub-goal of the goal on top of the stack lies below the whole stack -/
-theorem below_of_dep {s : St} (hi : Inv inst P dom lvl s) {g x : Nat} (ht : GTop s g)
+theorem below_of_dep {s : St} (hi : Inv inst P dom lvl fx s) {g x : Nat} (ht : GTop s g)
     (hx : lvl x ≤ lvl g ∧ (lvl x = lvl g → inst.coind x = inst.coind g)) : Below inst lvl s x := by
   obtain ⟨i, n, d, hn, hg, hd, hl⟩ := ht
   intro i' n' d' hn' hd'
@@ -52,7 +52,7 @@ theorem below_of_dep {s : St} (hi : Inv inst P dom lvl s) {g x : Nat} (ht : GTop
   rw [hx.2 e1, hc.2 e2]
 
 /-- every node off the stack depends on a node on the stack that is not above it -/
-theorem Inv.reach_stack {s : St} (hi : Inv inst P dom lvl s) : ∀ (b i : Nat) (n : Node), i < b →
+theorem Inv.reach_stack {s : St} (hi : Inv inst P dom lvl fx s) : ∀ (b i : Nat) (n : Node), i < b →
     s.graph[i]? = some n → n.stackDepth = none →
     ∃ (i' : Nat) (n' : Node) (d' : Nat), s.graph[i']? = some n' ∧ n'.stackDepth = some d' ∧
       lvl n'.goal ≤ lvl n.goal
@@ -67,7 +67,7 @@ theorem Inv.reach_stack {s : St} (hi : Inv inst P dom lvl s) : ∀ (b i : Nat) (
       exact ⟨i', n', d', h1, h2, Nat.le_trans h3 hle⟩
 
 /-- a justified answer of a goal strictly below the top of the stack is exact -/
-theorem Wit.exact {s : St} (hi : Inv inst P dom lvl s) {g x : Nat} (ht : GTop s g) (hlt : lvl x < lvl g)
+theorem Wit.exact {s : St} (hi : Inv inst P dom lvl fx s) {g x : Nat} (ht : GTop s g) (hlt : lvl x < lvl g)
     {lb : Min} {v : V} (h : Wit inst P s lb v x) : Holds P v x := by
   cases h with
   | inl h => exact h
@@ -89,18 +89,22 @@ theorem Wit.exact {s : St} (hi : Inv inst P dom lvl s) {g x : Nat} (ht : GTop s 
       rw [hgo] at h3
       omega
 
-theorem fulfillRound_sem (hrec : SubSpec inst P dom lvl rec) (L B : Nat) :
+theorem fulfillRound_sem (hrec : SubSpec inst P dom lvl fx rec) (L B : Nat) :
     ∀ (cs acc : List Nat) (m : Min) (s : St) (o : Option (List Nat)) (m' : Min) (s' : St),
-      Inv inst P dom lvl s → B ≤ s.graph.length → (∀ x, x ∈ cs → x ∈ dom ∧ Below inst lvl s x ∧ lvl x ≤ L) →
+      Inv inst P dom lvl fx s → B ≤ s.graph.length → (∀ x, x ∈ cs → x ∈ dom ∧ Below inst lvl s x ∧ lvl x ≤ L) →
       fulfillRound rec cs acc m s = .ok (o, m') s' →
-      Inv inst P dom lvl s' ∧ Step inst P s s' m' ∧ MinLe m' m ∧ LinkOK lvl s' L B m m' ∧
-        ((o = some acc ∧ ∀ x, x ∈ cs → Fact inst P s s' m' x .unique) ∨
+      Inv inst P dom lvl fx s' ∧ Step inst P s s' m' ∧ MinLe m' m ∧ LinkOK lvl s' L B m m' ∧
+        ((∃ ret, o = some (acc ++ ret) ∧ (∀ x, x ∈ ret → x ∈ cs) ∧ (ret ≠ [] → s'.interrupted = true) ∧
+            ∀ x, x ∈ cs → Fact inst P s s' m' x .unique ∨ x ∈ ret) ∨
          (o = none ∧ ∃ x, x ∈ cs ∧ Fact inst P s s' m' x .noSolution))
   | [], acc, m, s, o, m', s', hi, _, _, h => by
     simp only [fulfillRound, Res.ok.injEq, Prod.mk.injEq] at h
     obtain ⟨⟨ho, hm⟩, hs⟩ := h
     subst ho; subst hm; subst hs
-    exact ⟨hi, Step.refl _ _, MinLe.refl _, Or.inl rfl, Or.inl ⟨rfl, fun x hx => by cases hx⟩⟩
+    refine ⟨hi, Step.refl _ _, MinLe.refl _, Or.inl rfl, Or.inl ⟨[], by simp, ?_, ?_, ?_⟩⟩
+    · intro x hx; cases hx
+    · intro hne; exact absurd rfl hne
+    · intro x hx; cases hx
   | x :: rest, acc, m, s, o, m', s', hi, hB, hd, h => by
     simp only [fulfillRound] at h
     obtain ⟨hxd, hxb, hxl⟩ := hd x (List.mem_cons_self ..)
@@ -110,8 +114,10 @@ theorem fulfillRound_sem (hrec : SubSpec inst P dom lvl rec) (L B : Nat) :
       obtain ⟨v, m1⟩ := r
       rw [hr] at h
       obtain ⟨hi1, hs1, hle1, hf1, hk1⟩ := hrec x m s v m1 s1 hi hxd hxb hr
+      have hd1 : ∀ y, y ∈ rest → y ∈ dom ∧ Below inst lvl s1 y ∧ lvl y ≤ L := fun y hy => by
+        obtain ⟨a, b, c⟩ := hd y (List.mem_cons_of_mem _ hy)
+        exact ⟨a, b.step hs1, c⟩
       cases v with
-      | ambig => exact hf1.ne_ambig.elim
       | noSolution =>
         simp only [Res.ok.injEq, Prod.mk.injEq] at h
         obtain ⟨⟨ho, hm⟩, hs⟩ := h
@@ -120,28 +126,104 @@ theorem fulfillRound_sem (hrec : SubSpec inst P dom lvl rec) (L B : Nat) :
       | unique =>
         simp only at h
         obtain ⟨hi2, hs2, hle2, hk2, hres⟩ := fulfillRound_sem hrec L B rest acc m1 s1 o m' s' hi1
-          (Nat.le_trans hB hs1.graph_le) (fun y hy => by
-            obtain ⟨a, b, c⟩ := hd y (List.mem_cons_of_mem _ hy)
-            exact ⟨a, b.step hs1, c⟩) h
+          (Nat.le_trans hB hs1.graph_le) hd1 h
         refine ⟨hi2, hs1.trans hs2 hle2 hi1 hi2, hle2.trans hle1, ((hk1.mono hxl hB).step hs2).trans hk2, ?_⟩
         cases hres with
         | inl hres =>
-          refine Or.inl ⟨hres.1, fun y hy => ?_⟩
+          obtain ⟨ret, ho, hsub, hint, hall⟩ := hres
+          refine Or.inl ⟨ret, ho, fun y hy => List.mem_cons_of_mem _ (hsub y hy), hint, fun y hy => ?_⟩
           cases List.mem_cons.mp hy with
-          | inl e => rw [e]; exact hf1.step (Step.refl s m) hi hs2 hle2
-          | inr e => exact (hres.2 y e).step hs1 hi1 (Step.refl s' m') (MinLe.refl _)
+          | inl e => rw [e]; exact Or.inl (hf1.step (Step.refl s m) hi hs2 hle2)
+          | inr e =>
+            cases hall y e with
+            | inl h1 => exact Or.inl (h1.step hs1 hi1 (Step.refl s' m') (MinLe.refl _))
+            | inr h1 => exact Or.inr h1
+        | inr hres =>
+          obtain ⟨y, hy, hfy⟩ := hres.2
+          exact Or.inr ⟨hres.1, y, List.mem_cons_of_mem _ hy,
+            hfy.step hs1 hi1 (Step.refl s' m') (MinLe.refl _)⟩
+      | ambig =>
+        simp only at h
+        obtain ⟨hi2, hs2, hle2, hk2, hres⟩ := fulfillRound_sem hrec L B rest (acc ++ [x]) m1 s1 o m' s' hi1
+          (Nat.le_trans hB hs1.graph_le) hd1 h
+        refine ⟨hi2, hs1.trans hs2 hle2 hi1 hi2, hle2.trans hle1, ((hk1.mono hxl hB).step hs2).trans hk2, ?_⟩
+        cases hres with
+        | inl hres =>
+          obtain ⟨ret, ho, hsub, _, hall⟩ := hres
+          refine Or.inl ⟨x :: ret, by rw [ho, List.append_assoc]; rfl, fun y hy => ?_,
+            fun _ => hs2.intr hf1.ambig, fun y hy => ?_⟩
+          · cases List.mem_cons.mp hy with
+            | inl e => rw [e]; exact List.mem_cons_self ..
+            | inr e => exact List.mem_cons_of_mem _ (hsub y e)
+          · cases List.mem_cons.mp hy with
+            | inl e => rw [e]; exact Or.inr (List.mem_cons_self ..)
+            | inr e =>
+              cases hall y e with
+              | inl h1 => exact Or.inl (h1.step hs1 hi1 (Step.refl s' m') (MinLe.refl _))
+              | inr h1 => exact Or.inr (List.mem_cons_of_mem _ h1)
         | inr hres =>
           obtain ⟨y, hy, hfy⟩ := hres.2
           exact Or.inr ⟨hres.1, y, List.mem_cons_of_mem _ hy,
             hfy.step hs1 hi1 (Step.refl s' m') (MinLe.refl _)⟩
 
-theorem fulfillSolve_sem (hrec : SubSpec inst P dom lvl rec) (L B : Nat) (alt : List Nat) (m : Min) (s : St)
-    (v : V) (m' : Min) (s' : St) (hi : Inv inst P dom lvl s) (hB : B ≤ s.graph.length)
+/-- the last pass of `Fulfill::solve` over the retained (ambiguous) obligations -/
+theorem suggestPass_sem (hrec : SubSpec inst P dom lvl fx rec) (L B : Nat) :
+    ∀ (ds : List Nat) (m : Min) (s : St) (v : V) (m' : Min) (s' : St),
+      Inv inst P dom lvl fx s → B ≤ s.graph.length → (∀ x, x ∈ ds → x ∈ dom ∧ Below inst lvl s x ∧ lvl x ≤ L) →
+      s.interrupted = true → suggestPass cfg rec ds m s = .ok (v, m') s' →
+      Inv inst P dom lvl fx s' ∧ Step inst P s s' m' ∧ MinLe m' m ∧ LinkOK lvl s' L B m m' ∧
+        ((v = .ambig ∧ s'.interrupted = true) ∨
+         (v = .noSolution ∧ ∃ x, x ∈ ds ∧ Fact inst P s s' m' x .noSolution))
+  | [], m, s, v, m', s', hi, _, _, hint, h => by
+    simp only [suggestPass, Res.ok.injEq, Prod.mk.injEq] at h
+    obtain ⟨⟨hv, hm⟩, hs⟩ := h
+    subst hv; subst hm; subst hs
+    exact ⟨hi, Step.refl _ _, MinLe.refl _, Or.inl rfl, Or.inl ⟨rfl, hint⟩⟩
+  | x :: rest, m, s, v, m', s', hi, hB, hd, hint, h => by
+    simp only [suggestPass] at h
+    obtain ⟨hxd, hxb, hxl⟩ := hd x (List.mem_cons_self ..)
+    cases hr : rec x m s with
+    | panic site s1 => rw [hr] at h; cases h
+    | ok r s1 =>
+      obtain ⟨w, m1⟩ := r
+      rw [hr] at h
+      obtain ⟨hi1, hs1, hle1, hf1, hk1⟩ := hrec x m s w m1 s1 hi hxd hxb hr
+      cases w with
+      | noSolution =>
+        simp only at h
+        by_cases h16 : cfg.fixF16 = true
+        · simp only [h16, if_true, Res.ok.injEq, Prod.mk.injEq] at h
+          obtain ⟨⟨hv, hm⟩, hs⟩ := h
+          subst hv; subst hm; subst hs
+          exact ⟨hi1, hs1, hle1, hk1.mono hxl hB, Or.inr ⟨rfl, x, List.mem_cons_self .., hf1⟩⟩
+        · simp only [h16] at h
+          cases h
+      | unique =>
+        simp only [Res.ok.injEq, Prod.mk.injEq] at h
+        obtain ⟨⟨hv, hm⟩, hs⟩ := h
+        subst hv; subst hm; subst hs
+        exact ⟨hi1, hs1, hle1, hk1.mono hxl hB, Or.inl ⟨rfl, hs1.intr hint⟩⟩
+      | ambig =>
+        simp only at h
+        obtain ⟨hi2, hs2, hle2, hk2, hres⟩ := suggestPass_sem hrec L B rest m1 s1 v m' s' hi1
+          (Nat.le_trans hB hs1.graph_le) (fun y hy => by
+            obtain ⟨a, b, c⟩ := hd y (List.mem_cons_of_mem _ hy)
+            exact ⟨a, b.step hs1, c⟩) (hs1.intr hint) h
+        refine ⟨hi2, hs1.trans hs2 hle2 hi1 hi2, hle2.trans hle1, ((hk1.mono hxl hB).step hs2).trans hk2, ?_⟩
+        cases hres with
+        | inl hres => exact Or.inl hres
+        | inr hres =>
+          obtain ⟨hv, y, hy, hfy⟩ := hres
+          exact Or.inr ⟨hv, y, List.mem_cons_of_mem _ hy, hfy.step hs1 hi1 (Step.refl s' m') (MinLe.refl _)⟩
+
+theorem fulfillSolve_sem (hrec : SubSpec inst P dom lvl fx rec) (L B : Nat) (alt : List Nat) (m : Min) (s : St)
+    (v : V) (m' : Min) (s' : St) (hi : Inv inst P dom lvl fx s) (hB : B ≤ s.graph.length)
     (hd : ∀ x, x ∈ alt → x ∈ dom ∧ Below inst lvl s x ∧ lvl x ≤ L)
     (h : fulfillSolve cfg rec alt m s = .ok (v, m') s') :
-    Inv inst P dom lvl s' ∧ Step inst P s s' m' ∧ MinLe m' m ∧ LinkOK lvl s' L B m m' ∧
+    Inv inst P dom lvl fx s' ∧ Step inst P s s' m' ∧ MinLe m' m ∧ LinkOK lvl s' L B m m' ∧
       ((v = .unique ∧ ∀ x, x ∈ alt → Fact inst P s s' m' x .unique) ∨
-       (v = .noSolution ∧ ∃ x, x ∈ alt ∧ Fact inst P s s' m' x .noSolution)) := by
+       (v = .noSolution ∧ ∃ x, x ∈ alt ∧ Fact inst P s s' m' x .noSolution) ∨
+       (v = .ambig ∧ s'.interrupted = true)) := by
   unfold fulfillSolve at h
   cases hr : fulfillRound rec alt.reverse [] m s with
   | panic site s1 => rw [hr] at h; cases h
@@ -151,34 +233,63 @@ theorem fulfillSolve_sem (hrec : SubSpec inst P dom lvl rec) (L B : Nat) (alt : 
     obtain ⟨hi1, hs1, hle1, hk1, hres⟩ := fulfillRound_sem hrec L B alt.reverse [] m s o m1 s1 hi hB
       (fun x hx => hd x (List.mem_reverse.mp hx)) hr
     cases hres with
-    | inl hres =>
-      obtain ⟨ho, hall⟩ := hres
-      subst ho
-      simp only [Res.ok.injEq, Prod.mk.injEq] at h
-      obtain ⟨⟨hv, hm⟩, hs⟩ := h
-      subst hv; subst hm; subst hs
-      exact ⟨hi1, hs1, hle1, hk1, Or.inl ⟨rfl, fun x hx => hall x (List.mem_reverse.mpr hx)⟩⟩
     | inr hres =>
       obtain ⟨ho, x, hx, hfx⟩ := hres
       subst ho
       simp only [Res.ok.injEq, Prod.mk.injEq] at h
       obtain ⟨⟨hv, hm⟩, hs⟩ := h
       subst hv; subst hm; subst hs
-      exact ⟨hi1, hs1, hle1, hk1, Or.inr ⟨rfl, x, List.mem_reverse.mp hx, hfx⟩⟩
+      exact ⟨hi1, hs1, hle1, hk1, Or.inr (Or.inl ⟨rfl, x, List.mem_reverse.mp hx, hfx⟩)⟩
+    | inl hres =>
+      obtain ⟨ret, ho, hsub, hint, hall⟩ := hres
+      rw [List.nil_append] at ho
+      subst ho
+      cases ret with
+      | nil =>
+        simp only [Res.ok.injEq, Prod.mk.injEq] at h
+        obtain ⟨⟨hv, hm⟩, hs⟩ := h
+        subst hv; subst hm; subst hs
+        refine ⟨hi1, hs1, hle1, hk1, Or.inl ⟨rfl, fun x hx => ?_⟩⟩
+        cases hall x (List.mem_reverse.mpr hx) with
+        | inl h1 => exact h1
+        | inr h1 => cases h1
+      | cons r0 rs =>
+        simp only at h
+        have hsub' : ∀ x, x ∈ (r0 :: rs).reverse → x ∈ alt :=
+          fun x hx => List.mem_reverse.mp (hsub x (List.mem_reverse.mp hx))
+        obtain ⟨hi2, hs2, hle2, hk2, hres2⟩ := suggestPass_sem (cfg := cfg) hrec L B (r0 :: rs).reverse m1 s1 v m' s'
+          hi1 (Nat.le_trans hB hs1.graph_le) (fun x hx => by
+            obtain ⟨a, b, c⟩ := hd x (hsub' x hx)
+            exact ⟨a, b.step hs1, c⟩) (hint (by simp)) h
+        refine ⟨hi2, hs1.trans hs2 hle2 hi1 hi2, hle2.trans hle1, (hk1.step hs2).trans hk2, ?_⟩
+        cases hres2 with
+        | inl h1 => exact Or.inr (Or.inr h1)
+        | inr h1 =>
+          obtain ⟨hv, y, hy, hfy⟩ := h1
+          exact Or.inr (Or.inl ⟨hv, y, hsub' y hy, hfy.step hs1 hi1 (Step.refl s' m') (MinLe.refl _)⟩)
 
-theorem solveFromClauses_sem (hrec : SubSpec inst P dom lvl rec) (L B : Nat) :
-    ∀ (alts : List (List Nat)) (m : Min) (s : St) (v : V) (m' : Min) (s' : St),
-      Inv inst P dom lvl s → B ≤ s.graph.length → (∀ alt, alt ∈ alts → ∀ x, x ∈ alt → x ∈ dom ∧ Below inst lvl s x ∧ lvl x ≤ L) →
-      solveFromClauses cfg rec true alts none m s = .ok (v, m') s' →
-      Inv inst P dom lvl s' ∧ Step inst P s s' m' ∧ MinLe m' m ∧ LinkOK lvl s' L B m m' ∧
+/-- the running solution of the clause loop on ground goals: nothing yet, or ambiguous -/
+def CurOK (s : St) (cur : Option V) : Prop := cur = none ∨ (cur = some .ambig ∧ s.interrupted = true)
+
+theorem solveFromClauses_sem (hrec : SubSpec inst P dom lvl fx rec) (L B : Nat) :
+    ∀ (alts : List (List Nat)) (cur : Option V) (m : Min) (s : St) (v : V) (m' : Min) (s' : St),
+      Inv inst P dom lvl fx s → CurOK s cur → B ≤ s.graph.length →
+      (∀ alt, alt ∈ alts → ∀ x, x ∈ alt → x ∈ dom ∧ Below inst lvl s x ∧ lvl x ≤ L) →
+      solveFromClauses cfg rec true alts cur m s = .ok (v, m') s' →
+      Inv inst P dom lvl fx s' ∧ Step inst P s s' m' ∧ MinLe m' m ∧ LinkOK lvl s' L B m m' ∧
         ((v = .unique ∧ ∃ alt, alt ∈ alts ∧ ∀ x, x ∈ alt → Fact inst P s s' m' x .unique) ∨
-         (v = .noSolution ∧ ∀ alt, alt ∈ alts → ∃ x, x ∈ alt ∧ Fact inst P s s' m' x .noSolution))
-  | [], m, s, v, m', s', hi, _, _, h => by
-    simp only [solveFromClauses, Option.getD_none, Res.ok.injEq, Prod.mk.injEq] at h
+         (v = .noSolution ∧ cur = none ∧
+            ∀ alt, alt ∈ alts → ∃ x, x ∈ alt ∧ Fact inst P s s' m' x .noSolution) ∨
+         (v = .ambig ∧ s'.interrupted = true))
+  | [], cur, m, s, v, m', s', hi, hcur, _, _, h => by
+    simp only [solveFromClauses, Res.ok.injEq, Prod.mk.injEq] at h
     obtain ⟨⟨hv, hm⟩, hs⟩ := h
     subst hv; subst hm; subst hs
-    exact ⟨hi, Step.refl _ _, MinLe.refl _, Or.inl rfl, Or.inr ⟨rfl, fun alt ha => by cases ha⟩⟩
-  | alt :: rest, m, s, v, m', s', hi, hB, hd, h => by
+    refine ⟨hi, Step.refl _ _, MinLe.refl _, Or.inl rfl, ?_⟩
+    cases hcur with
+    | inl e => subst e; exact Or.inr (Or.inl ⟨rfl, rfl, fun alt ha => by cases ha⟩)
+    | inr e => rw [e.1]; exact Or.inr (Or.inr ⟨rfl, e.2⟩)
+  | alt :: rest, cur, m, s, v, m', s', hi, hcur, hB, hd, h => by
     rw [solveFromClauses_cons] at h
     cases hr : fulfillSolve cfg rec alt m s with
     | panic site s1 => rw [hr] at h; cases h
@@ -187,60 +298,90 @@ theorem solveFromClauses_sem (hrec : SubSpec inst P dom lvl rec) (L B : Nat) :
       rw [hr] at h
       obtain ⟨hi1, hs1, hle1, hk1, hres⟩ := fulfillSolve_sem hrec L B alt m s w m1 s1 hi hB
         (hd alt (List.mem_cons_self ..)) hr
-      cases hres with
-      | inl hres =>
-        obtain ⟨hw, hall⟩ := hres
+      have hcur1 : CurOK s1 cur := hcur.imp id (fun e => ⟨e.1, hs1.intr e.2⟩)
+      have hrest := fun (cur' : Option V) (hc' : CurOK s1 cur')
+          (h' : solveFromClauses cfg rec true rest cur' m1 s1 = .ok (v, m') s') =>
+        solveFromClauses_sem hrec L B rest cur' m1 s1 v m' s' hi1 hc' (Nat.le_trans hB hs1.graph_le)
+          (fun a ha y hy => by
+            obtain ⟨p, q, r⟩ := hd a (List.mem_cons_of_mem _ ha) y hy
+            exact ⟨p, q.step hs1, r⟩) h'
+      rcases hres with hres | hres | hres
+      · obtain ⟨hw, hall⟩ := hres
         subst hw
-        simp only [stepCur, trivialTrue, Bool.true_and, beq_self_eq_true, if_true, Res.ok.injEq,
-          Prod.mk.injEq] at h
+        have hstep : stepCur true .unique cur = some .unique := by
+          cases hcur with
+          | inl e => subst e; rfl
+          | inr e => rw [e.1]; rfl
+        simp only [hstep] at h
+        simp only [trivialTrue, Bool.true_and, beq_self_eq_true, if_true, Res.ok.injEq, Prod.mk.injEq] at h
         obtain ⟨⟨hv, hm⟩, hs⟩ := h
         subst hv; subst hm; subst hs
         exact ⟨hi1, hs1, hle1, hk1, Or.inl ⟨rfl, alt, List.mem_cons_self .., hall⟩⟩
-      | inr hres =>
-        obtain ⟨hw, x, hx, hfx⟩ := hres
+      · obtain ⟨hw, x, hx, hfx⟩ := hres
         subst hw
-        simp only [stepCur] at h
-        obtain ⟨hi2, hs2, hle2, hk2, hres2⟩ := solveFromClauses_sem hrec L B rest m1 s1 v m' s' hi1
-          (Nat.le_trans hB hs1.graph_le) (fun a ha y hy => by
-            obtain ⟨p, q, r⟩ := hd a (List.mem_cons_of_mem _ ha) y hy
-            exact ⟨p, q.step hs1, r⟩) h
+        have hstep : stepCur true .noSolution cur = cur := rfl
+        simp only [hstep] at h
+        have h' : solveFromClauses cfg rec true rest cur m1 s1 = .ok (v, m') s' := by
+          cases hcur with
+          | inl e => subst e; exact h
+          | inr e =>
+            rw [e.1] at h ⊢
+            simpa [trivialTrue] using h
+        obtain ⟨hi2, hs2, hle2, hk2, hres2⟩ := hrest cur hcur1 h'
         refine ⟨hi2, hs1.trans hs2 hle2 hi1 hi2, hle2.trans hle1, (hk1.step hs2).trans hk2, ?_⟩
-        cases hres2 with
-        | inl hres2 =>
-          obtain ⟨hv, a, ha, hall⟩ := hres2
+        rcases hres2 with h2 | h2 | h2
+        · obtain ⟨hv, a, ha, hall⟩ := h2
           exact Or.inl ⟨hv, a, List.mem_cons_of_mem _ ha, fun y hy =>
             (hall y hy).step hs1 hi1 (Step.refl s' m') (MinLe.refl _)⟩
-        | inr hres2 =>
-          refine Or.inr ⟨hres2.1, fun a ha => ?_⟩
+        · obtain ⟨hv, hc0, hall⟩ := h2
+          refine Or.inr (Or.inl ⟨hv, hc0, fun a ha => ?_⟩)
           cases List.mem_cons.mp ha with
           | inl e => rw [e]; exact ⟨x, hx, hfx.step (Step.refl s m) hi hs2 hle2⟩
           | inr e =>
-            obtain ⟨y, hy, hfy⟩ := hres2.2 a e
+            obtain ⟨y, hy, hfy⟩ := hall a e
             exact ⟨y, hy, hfy.step hs1 hi1 (Step.refl s' m') (MinLe.refl _)⟩
+        · exact Or.inr (Or.inr h2)
+      · obtain ⟨hw, hint1⟩ := hres
+        subst hw
+        have hstep : stepCur true .ambig cur = some .ambig := by
+          cases hcur with
+          | inl e => subst e; rfl
+          | inr e => rw [e.1]; rfl
+        simp only [hstep] at h
+        have h' : solveFromClauses cfg rec true rest (some .ambig) m1 s1 = .ok (v, m') s' := by
+          simpa [trivialTrue] using h
+        obtain ⟨hi2, hs2, hle2, hk2, hres2⟩ := hrest (some .ambig) (Or.inr ⟨rfl, hint1⟩) h'
+        refine ⟨hi2, hs1.trans hs2 hle2 hi1 hi2, hle2.trans hle1, (hk1.step hs2).trans hk2, ?_⟩
+        rcases hres2 with h2 | h2 | h2
+        · obtain ⟨hv, a, ha, hall⟩ := h2
+          exact Or.inl ⟨hv, a, List.mem_cons_of_mem _ ha, fun y hy =>
+            (hall y hy).step hs1 hi1 (Step.refl s' m') (MinLe.refl _)⟩
+        · exact absurd h2.2.1 (by simp)
+        · exact Or.inr (Or.inr h2)
 
 /-- the outcome of one iteration in terms of the polarity of the goal -/
 def IterFact (inst : Instance) (P : Nat → Prop) (s s' : St) (m' : Min) (g : Nat) (v : V) : Prop :=
   (v = topOf inst g ∧ JV inst v (Wit inst P s' m' v) g) ∨
-  (v = botOf inst g ∧ JV inst v (fun x => Holds P v x ∧ (topOf inst x = topOf inst g → ¬ InG inst P s x)) g)
+  (v = botOf inst g ∧ JV inst v (fun x => Holds P v x ∧ (topOf inst x = topOf inst g → ¬ InG inst P s x)) g) ∨
+  (v = .ambig ∧ s'.interrupted = true)
 
-theorem iterFact_of (hyp : MHyp inst P dom lvl) {s s' : St} (hi' : Inv inst P dom lvl s') {m' : Min} {g : Nat}
+theorem iterFact_of (hyp : MHyp inst P dom lvl) {s s' : St} (hi' : Inv inst P dom lvl fx s') {m' : Min} {g : Nat}
     (hg : g ∈ dom) (ht : GTop s' g) {v : V}
     (h : (v = .unique ∧ ∃ alt, alt ∈ inst.deps g ∧ ∀ x, x ∈ alt → Fact inst P s s' m' x .unique) ∨
-         (v = .noSolution ∧ ∀ alt, alt ∈ inst.deps g → ∃ x, x ∈ alt ∧ Fact inst P s s' m' x .noSolution)) :
+         (v = .noSolution ∧ ∀ alt, alt ∈ inst.deps g → ∃ x, x ∈ alt ∧ Fact inst P s s' m' x .noSolution) ∨
+         (v = .ambig ∧ s'.interrupted = true)) :
     IterFact inst P s s' m' g v := by
-  -- what a reported answer `v` of a sub-goal means, depending on whether `v` is optimistic for `g`
-  have hopt : v = topOf inst g → ∀ x, Fact inst P s s' m' x v → Wit inst P s' m' v x := by
-    intro _ x hf
-    cases hf with
-    | inl h1 => exact h1.2
-    | inr h1 => exact Or.inl h1.2.1
-  have hpes : v = botOf inst g → ∀ alt, alt ∈ inst.deps g → ∀ x, x ∈ alt → Fact inst P s s' m' x v →
-      Holds P v x ∧ (topOf inst x = topOf inst g → ¬ InG inst P s x) := by
-    intro hv alt ha x hx hf
-    cases hf with
-    | inr h1 => exact ⟨h1.2.1, fun _ => h1.2.2⟩
-    | inl h1 =>
-      have hne : topOf inst x ≠ topOf inst g := by
+  have hopt : v ≠ .ambig → v = topOf inst g → ∀ x, Fact inst P s s' m' x v → Wit inst P s' m' v x := by
+    intro hna _ x hf
+    rcases hf with h1 | h1 | h1
+    · exact h1.2
+    · exact Or.inl h1.2.1
+    · exact absurd h1.1 hna
+  have hpes : v ≠ .ambig → v = botOf inst g → ∀ alt, alt ∈ inst.deps g → ∀ x, x ∈ alt →
+      Fact inst P s s' m' x v → Holds P v x ∧ (topOf inst x = topOf inst g → ¬ InG inst P s x) := by
+    intro hna hv alt ha x hx hf
+    rcases hf with h1 | h1 | h1
+    · have hne : topOf inst x ≠ topOf inst g := by
         rw [← h1.1, hv]; exact (topOf_ne_botOf inst g).symm
       have hl := hyp.lvl_le g hg alt ha x hx
       have hlt : lvl x < lvl g := by
@@ -248,43 +389,83 @@ theorem iterFact_of (hyp : MHyp inst P dom lvl) {s s' : St} (hi' : Inv inst P do
         · exact h2
         · exact absurd ((topOf_eq_iff inst x g).mpr (hl.2 (Nat.le_antisymm hl.1 h2))) hne
       exact ⟨h1.2.exact hi' ht hlt, fun e => absurd e hne⟩
-  have hv : v = topOf inst g ∨ v = botOf inst g := by
-    unfold topOf botOf initialValue
-    cases h with
-    | inl h => rw [h.1]; cases inst.coind g <;> simp
-    | inr h => rw [h.1]; cases inst.coind g <;> simp
-  cases h with
-  | inl h =>
-    obtain ⟨e, alt, ha, hall⟩ := h
+    · exact ⟨h1.2.1, fun _ => h1.2.2⟩
+    · exact absurd h1.1 hna
+  rcases h with h | h | h
+  · obtain ⟨e, alt, ha, hall⟩ := h
     subst e
+    have hv : V.unique = topOf inst g ∨ V.unique = botOf inst g := by
+      unfold topOf botOf initialValue; cases inst.coind g <;> simp
     cases hv with
-    | inl hv => exact Or.inl ⟨hv, alt, ha, fun x hx => hopt hv x (hall x hx)⟩
-    | inr hv => exact Or.inr ⟨hv, alt, ha, fun x hx => hpes hv alt ha x hx (hall x hx)⟩
-  | inr h =>
-    obtain ⟨e, hall⟩ := h
+    | inl hv => exact Or.inl ⟨hv, alt, ha, fun x hx => hopt (by decide) hv x (hall x hx)⟩
+    | inr hv => exact Or.inr (Or.inl ⟨hv, alt, ha, fun x hx => hpes (by decide) hv alt ha x hx (hall x hx)⟩)
+  · obtain ⟨e, hall⟩ := h
     subst e
+    have hv : V.noSolution = topOf inst g ∨ V.noSolution = botOf inst g := by
+      unfold topOf botOf initialValue; cases inst.coind g <;> simp
     cases hv with
     | inl hv =>
       refine Or.inl ⟨hv, fun alt ha => ?_⟩
       obtain ⟨x, hx, hf⟩ := hall alt ha
-      exact ⟨x, hx, hopt hv x hf⟩
+      exact ⟨x, hx, hopt (by decide) hv x hf⟩
     | inr hv =>
-      refine Or.inr ⟨hv, fun alt ha => ?_⟩
+      refine Or.inr (Or.inl ⟨hv, fun alt ha => ?_⟩)
       obtain ⟨x, hx, hf⟩ := hall alt ha
-      exact ⟨x, hx, hpes hv alt ha x hx hf⟩
+      exact ⟨x, hx, hpes (by decide) hv alt ha x hx hf⟩
+  · exact Or.inr (Or.inr h)
 
-theorem solveIteration_sem (hyp : MHyp inst P dom lvl) (hrec : SubSpec inst P dom lvl rec) (g : Nat)
-    (hg : g ∈ dom) (m : Min) (s : St) (v : V) (m' : Min) (s' : St) (hi : Inv inst P dom lvl s)
+/-- changing the oracle and raising the `interrupted` flag keeps the invariant -/
+theorem Inv.oracleChange {s : St} (hi : Inv inst P dom lvl fx s) (o : List Bool) (i : Bool)
+    (hint : s.interrupted = true → i = true)
+    (hq : QuietSt s → s.interrupted = false → o = [] ∧ i = false) :
+    Inv inst P dom lvl fx { s with oracle := o, interrupted := i } :=
+  ⟨hi.fixes.imp id (fun h => ⟨⟨(hq h.1 h.2).1, h.1.2⟩, (hq h.1 h.2).2⟩),
+   fun k n hn ha => hint (hi.amb k n hn ha), hi.cacheOK, hi.stackNode, hi.chain, hi.nodup, hi.disj, hi.inDom,
+   hi.val, hi.approx, hi.stk, hi.nonstk, hi.cnt, hi.just, hi.lvlLinks⟩
+
+theorem Step.oracleChange (s : St) (o : List Bool) (i : Bool) (lb : Min)
+    (hint : s.interrupted = true → i = true)
+    (hq : QuietSt s → o = [] ∧ (s.interrupted = false → i = false)) :
+    Step inst P s { s with oracle := o, interrupted := i } lb :=
+  ⟨⟨[], by simp, fun n hn => by cases hn⟩, StackExt.refl _, fun _ _ h => h, fun _ _ h => h,
+   fun k hu hd => absurd hd (hu _), rfl, hint, fun q => ⟨⟨(hq q).1, q.2⟩, (hq q).2⟩⟩
+
+theorem solveIteration_sem (hyp : MHyp inst P dom lvl) (h3 : cfg.fixF3 = true)
+    (hrec : SubSpec inst P dom lvl fx rec) (g : Nat)
+    (hg : g ∈ dom) (m : Min) (s : St) (v : V) (m' : Min) (s' : St) (hi : Inv inst P dom lvl fx s)
     (ht : GTop s g) (h : solveIteration inst cfg rec g m s = .ok (v, m') s') :
-    Inv inst P dom lvl s' ∧ Step inst P s s' m' ∧ MinLe m' m ∧ LinkOK lvl s' (lvl g) s.graph.length m m' ∧
+    Inv inst P dom lvl fx s' ∧ Step inst P s s' m' ∧ MinLe m' m ∧ LinkOK lvl s' (lvl g) s.graph.length m m' ∧
       IterFact inst P s s' m' g v := by
   unfold solveIteration at h
-  rw [shouldContinue_quiet hi.quiet] at h
-  simp only [hyp.ground g hg] at h
-  obtain ⟨hi1, hs1, hle1, hk1, hres⟩ := solveFromClauses_sem hrec (lvl g) s.graph.length (inst.deps g) m s v m' s' hi
-    (Nat.le_refl _) (fun alt ha x hx => ⟨hyp.closed g hg alt ha x hx, below_of_dep hi ht (hyp.lvl_le g hg alt ha x hx),
-      (hyp.lvl_le g hg alt ha x hx).1⟩) h
-  exact ⟨hi1, hs1, hle1, hk1, iterFact_of hyp hi1 hg (ht.step hs1) hres⟩
+  obtain ⟨b, o, hb, hq⟩ := shouldContinue_cases s
+  rw [hb] at h
+  have i1 : Inv inst P dom lvl fx { s with oracle := o } :=
+    hi.oracleChange o s.interrupted id (fun q e => ⟨(hq q).2, e⟩)
+  have st1 : Step inst P s { s with oracle := o } m :=
+    Step.oracleChange s o s.interrupted m id (fun q => ⟨(hq q).2, id⟩)
+  have ht1 : GTop { s with oracle := o } g := ht
+  cases b with
+  | false =>
+    simp only [h3, if_true, Res.ok.injEq, Prod.mk.injEq] at h
+    obtain ⟨⟨hv, hm⟩, hs⟩ := h
+    subst hv; subst hm; subst hs
+    refine ⟨hi.oracleChange o true (fun _ => rfl) (fun q _ => by cases (hq q).1), ?_, MinLe.refl _, Or.inl rfl,
+      Or.inr (Or.inr ⟨rfl, rfl⟩)⟩
+    exact Step.oracleChange s o true _ (fun _ => rfl) (fun q => by cases (hq q).1)
+  | true =>
+    simp only [hyp.ground g hg] at h
+    obtain ⟨hi1, hs1, hle1, hk1, hres⟩ := solveFromClauses_sem hrec (lvl g) s.graph.length (inst.deps g) none m _
+      v m' s' i1 (Or.inl rfl) (Nat.le_refl _)
+      (fun alt ha x hx => ⟨hyp.closed g hg alt ha x hx, below_of_dep i1 ht1 (hyp.lvl_le g hg alt ha x hx),
+        (hyp.lvl_le g hg alt ha x hx).1⟩) h
+    refine ⟨hi1, st1.trans hs1 hle1 i1 hi1, hle1, hk1, iterFact_of hyp hi1 hg (ht1.step hs1) ?_⟩
+    rcases hres with h1 | h1 | h1
+    · obtain ⟨hv, alt, ha, hall⟩ := h1
+      exact Or.inl ⟨hv, alt, ha, fun x hx => (hall x hx).step st1 i1 (Step.refl s' m') (MinLe.refl _)⟩
+    · refine Or.inr (Or.inl ⟨h1.1, fun alt ha => ?_⟩)
+      obtain ⟨x, hx, hf⟩ := h1.2.2 alt ha
+      exact ⟨x, hx, hf.step st1 i1 (Step.refl s' m') (MinLe.refl _)⟩
+    · exact Or.inr (Or.inr h1)
 
 end
 
